@@ -4,6 +4,7 @@ import (
 	"bytes"
 	"context"
 	"fmt"
+	"os"
 	"regexp"
 	"runtime/debug"
 	"sort"
@@ -38,6 +39,11 @@ import (
 // mempool/executor (GetTxs does not drain, ExecuteTxs removes), which is external and survives crashes.
 // Every execution runs in a synctest bubble: the sequencer stamps batches with time.Now(), which is virtual and
 // does not advance (the execution is purely sequential: no loops run, nothing sleeps).
+//
+// Two bounded deviation classes are explored on top of the action histories: crashes at durable-write boundaries
+// (class "crash") and error answers of the execution layer to the calls of a production step (class "exec": the
+// step fails after the batch has been taken; what follows — retry, restart, more reaping — is any continuation of
+// the alphabet). The oracle is the same for both.
 
 const (
 	actInjectA = iota
@@ -216,6 +222,8 @@ type outcome struct {
 	nActs  int
 	crashs int
 	refuse int
+	execEr int // executor error answers injected
+	finals int // SetFinal calls seen in the executor's call log
 }
 
 var hexKey = regexp.MustCompile(`^/[0-9a-f]{64}$`)
@@ -277,8 +285,40 @@ func bubble(c *explore.Ctx, depth int) (out outcome) {
 		crashPos []string            // positions of the injected crashes
 		doomed   = map[string]bool{} // transactions of batches taken (queue record deleted) whose first block save did not happen before a crash
 		sawKnown bool
+		execPos  []string // positions of the injected executor errors (and what the next action was)
+		execOpen = -1     // index into execPos of an executor error whose following action is not known yet
 	)
 	ev := func(f string, a ...any) { out.trace = append(out.trace, fmt.Sprintf(f, a...)) }
+
+	// Executor error answers (deviation class "exec"): every call the node makes into the execution layer during an
+	// explored action that can be refused without breaking the executor contract — ExecuteTxs and SetFinal — may
+	// return an error instead of doing its work (the failed call has no effect on the executor: nothing executed,
+	// the mempool keeps its transactions). The position is classified from the write log of the running production
+	// step alone: which block the step was about to execute.
+	execFault := func(call string, h uint64) bool {
+		if !armed || c.Choose("exec", 2) == 0 {
+			return false
+		}
+		what := "pending-block" // the step found the block of this height in the store (saved by an earlier step, or the initial block NewManager stores)
+		for _, d := range done {
+			switch kindOf(d) {
+			case "queue-delete":
+				what = "block-of-newly-taken-batch"
+			case "batch-cursor":
+				if what == "pending-block" {
+					what = "new-empty-block"
+				}
+			}
+		}
+		pos := fmt.Sprintf("exec-error:%s:in[%s]on[%s]", call, curKind, what)
+		execPos = append(execPos, pos)
+		execOpen = len(execPos) - 1
+		out.execEr++
+		ev("EXEC-ERROR %s(height %d) answers with an error (%s)", call, h, pos)
+		return true
+	}
+	env.Exec.ExecPolicy = func(h uint64) bool { return execFault("ExecuteTxs", h) }
+	env.Exec.FinalPolicy = func(h uint64) bool { return execFault("SetFinal", h) }
 
 	onWrite := func(idx int, w world.Write) bool {
 		if armed && c.Choose("crash", 2) == 1 {
@@ -391,6 +431,10 @@ func bubble(c *explore.Ctx, depth int) (out outcome) {
 		at++
 		out.nActs++
 		ev("%s", actNames[a])
+		if execOpen >= 0 { // what the node / its operator did right after the executor error
+			execPos = append(execPos, fmt.Sprintf("exec-error-then[%s]", strings.SplitN(actNames[a], "(", 2)[0]))
+			execOpen = -1
+		}
 		fl = apply(fl, a)
 		crashed := false
 		switch a {
@@ -448,9 +492,13 @@ func bubble(c *explore.Ctx, depth int) (out outcome) {
 		}
 	}
 
-	// well-formed drain: (reap, produce) rounds without crashes until a round in which nothing is handed off, the
-	// block is empty and the queue holds no record
+	// well-formed drain: (reap, produce) rounds without crashes and without executor errors until a round in which
+	// nothing is handed off, the block is empty and the queue holds no record
 	armed = false
+	if execOpen >= 0 {
+		execPos = append(execPos, "exec-error-then[drain]")
+		execOpen = -1
+	}
 	quiescent := false
 	rounds := 0
 	for rounds < drainMax && !quiescent {
@@ -471,6 +519,7 @@ func bubble(c *explore.Ctx, depth int) (out outcome) {
 	// ------------------------------------------------------------------------------------------------ oracle
 	var tags []string
 	tags = append(tags, crashPos...)
+	tags = append(tags, execPos...)
 	if sawKnown {
 		tags = append(tags, "note:a-crash-at-the-known-position-occurred")
 	}
@@ -526,6 +575,8 @@ func bubble(c *explore.Ctx, depth int) (out outcome) {
 	open := map[string]bool{}
 	for _, call := range env.Exec.Log() {
 		switch call.Kind {
+		case "final":
+			out.finals++
 		case "gettxs":
 			for _, tx := range call.Txs {
 				k := string(tx)
@@ -627,7 +678,7 @@ func bubble(c *explore.Ctx, depth int) (out outcome) {
 		add("handoff-retried", fmt.Sprintf("queue size %d: the hand-off of %v was refused (queue full) and never repeated successfully in %d well-formed reap+produce rounds. chain: %s", op.QSize, forgotten, rounds, chainStr))
 	}
 
-	out.sig = fmt.Sprintf("q%d|%s|refused=%d|released=%d|crash=%v|quiescent=%v", op.QSize, chainStr, out.refuse, len(rec.released), crashPos, quiescent)
+	out.sig = fmt.Sprintf("q%d|%s|refused=%d|released=%d|crash=%v|exec=%v|quiescent=%v", op.QSize, chainStr, out.refuse, len(rec.released), crashPos, execPos, quiescent)
 	return
 }
 
@@ -642,20 +693,30 @@ func TestCheck(t *testing.T) {
 	if r.RunShards(16) {
 		return
 	}
-	// quick: depth 6 with at most one crash. thorough: depth 8 with at most one crash AND depth 7 with at most two
-	// (depth 8 with two crashes is ~16 million executions, beyond the thorough budget).
+	// Deviations: crashes (class "crash") and executor error answers (class "exec"); `Faults` bounds their sum.
+	// quick: depth 6 with at most one deviation (one crash OR one executor error). thorough: depth 8 with at most one
+	// deviation AND depth 7 with at most two (two crashes, two executor errors, or one of each in either order;
+	// depth 8 with two deviations is beyond the thorough budget).
 	type phase struct {
 		Depth    int           `json:"depth"`
 		Crash    int           `json:"crash"`
+		Exec     int           `json:"exec_errors"`
+		Faults   int           `json:"crashes_plus_exec_errors"`
 		Deadline time.Duration `json:"-"`
 	}
-	phases := vf.Pick(r, []phase{{6, 1, 150 * time.Second}}, []phase{{8, 1, 8 * time.Minute}, {7, 2, 17 * time.Minute}})
+	phases := vf.Pick(r, []phase{{6, 1, 1, 1, 150 * time.Second}}, []phase{{8, 1, 1, 1, 8 * time.Minute}, {7, 2, 2, 2, 17 * time.Minute}})
+	if os.Getenv("C11_NO_DEADLINE") != "" { // development aid: measure the size of a tier on a loaded machine
+		for i := range phases {
+			phases[i].Deadline = 0
+		}
+	}
 	r.Assume = []string{
 		"crash model: the process (manager + reaper + sequencer, one datastore) dies between two durable datastore writes (a put, a delete, one batch commit are atomic units); nothing in memory survives; the mempool/executor is external and survives",
 		"mempool double: contract-conforming (GetTxs does not drain, ExecuteTxs removes executed transactions) and holding at most one entry per byte string at a time (identical bytes are injected again only after execution removed them)",
 		"datastore wiring as in apps/testapp + node/full.go: one datastore; node store and reaper seen-set share one view, the sequencer namespaces its queue under /batches",
 		"virtual time (synctest): the sequencer's time.Now() never goes backwards, so the 'timestamp earlier than the last block' rejection of a taken batch (manager.go) is not reachable in this world",
-		"'appears in a committed block at the end' is decided after a well-formed drain: reap+produce rounds without crashes until one round hands nothing off, produces an empty block and leaves the queue empty (at most 10 rounds)",
+		"executor error model: a failing ExecuteTxs / SetFinal returns an error and leaves the execution layer untouched (nothing executed, mempool unchanged); it is transient (the drain and all calls not chosen to fail succeed). GetTxs and InitChain never fail. SetFinal is only called by the DA-inclusion loop, which does not run in this world (calls seen are counted in first_shard_setfinal_calls_seen)",
+		"'appears in a committed block at the end' is decided after a well-formed drain: reap+produce rounds without crashes and without executor errors until one round hands nothing off, produces an empty block and leaves the queue empty (at most 10 rounds)",
 		"seen-set, queue and chain are only exercised through the real Reaper.SubmitTxs, single.Sequencer and Manager.publishBlock",
 	}
 	if r.ReplayPath() != "" {
@@ -678,13 +739,13 @@ func TestCheck(t *testing.T) {
 		return
 	}
 	// counters (guarded by a one-slot channel)
-	type counters struct{ refusal, crash, crashFree, knownPos int64 }
+	type counters struct{ refusal, crash, crashFree, knownPos, execErr, execAndCrash, plain, finals, sampExec, sampCrash int64 }
 	cnt := make(chan counters, 1)
 	cnt <- counters{}
 	var total explore.Stats
 	var caps []string
 	for _, ph := range phases {
-		st := explore.Explore(explore.Config{Budgets: map[string]int{"crash": ph.Crash}, Deadline: ph.Deadline}, func(c *explore.Ctx) {
+		st := explore.Explore(explore.Config{Budgets: map[string]int{"crash": ph.Crash, "exec": ph.Exec}, Total: ph.Faults, Free: []string{"open", "act"}, Deadline: ph.Deadline}, func(c *explore.Ctx) {
 			o := body(t, c, ph.Depth)
 			if o.eng != "" {
 				r.EngineError(o.eng + " | " + strings.Join(o.trace, " ; "))
@@ -699,6 +760,27 @@ func TestCheck(t *testing.T) {
 			} else {
 				v.crashFree++
 			}
+			if o.execEr > 0 {
+				v.execErr++
+				if o.crashs > 0 {
+					v.execAndCrash++
+				}
+			}
+			if o.crashs == 0 && o.execEr == 0 {
+				v.plain++
+			}
+			v.finals += int64(o.finals)
+			// at most three samples of each kind per process (vf keeps six)
+			sample := false
+			if len(o.viols) == 0 && o.nActs >= 5 {
+				if o.execEr > 0 && v.sampExec < 3 {
+					v.sampExec++
+					sample = true
+				} else if o.execEr == 0 && o.crashs > 0 && o.refuse > 0 && v.sampCrash < 3 {
+					v.sampCrash++
+					sample = true
+				}
+			}
 			cnt <- v
 			for _, vi := range o.viols {
 				r.Report(vf.Violation{Clause: vi.clause, Tags: vi.tags, Msg: vi.msg + "\n history: " + strings.Join(o.trace, " ; "), Cost: c.Cost() + o.nActs, History: replay{ph.Depth, c.Choices()}})
@@ -706,7 +788,7 @@ func TestCheck(t *testing.T) {
 			}
 			if len(o.viols) == 0 {
 				r.Outcome(o.sig)
-				if o.crashs > 0 && o.refuse > 0 && o.nActs >= 5 {
+				if sample {
 					r.Sample(map[string]any{"queue_size": o.qsize, "history": o.trace, "signature": o.sig})
 				}
 			}
@@ -725,12 +807,14 @@ func TestCheck(t *testing.T) {
 	}
 	v := <-cnt
 	r.Finish(vf.Coverage{
-		// States = crash-free action histories executed (summed over the process shards; every shard runs the empty history)
-		Evaluations: total.Executions, DistinctNontrivial: int64(r.DistinctOutcomes()), States: v.crashFree, Transitions: total.Points,
-		Rule:       "for each (depth, crash) phase and each queue size: every enabled action history of length 0..depth over {inject a, inject b, inject a again (same bytes, once execution removed it), reap = Reaper.SubmitTxs, produce = one publishBlock step, clean restart = new reaper + sequencer + manager on the same image} × every subset of at most `crash` crash points among ALL durable writes of the explored actions and of the reboots (crash before the write, then reboot of all three components on the exact image), each followed by a crash-free drain of reap+produce rounds to quiescence, the four oracle clauses and world.CheckChain; executed from scratch on the real Reaper, single.Sequencer and Manager in a synctest bubble; states = crash-free action histories; distinct = distinct (queue size, chain contents, refusals, releases, crash positions) signatures",
+		// States = deviation-free (no crash, no executor error) action histories executed (summed over the process shards; every shard runs the empty history)
+		Evaluations: total.Executions, DistinctNontrivial: int64(r.DistinctOutcomes()), States: v.plain, Transitions: total.Points,
+		Rule:       "for each (depth, crash, exec_errors, crashes_plus_exec_errors) phase and each queue size: every enabled action history of length 0..depth over {inject a, inject b, inject a again (same bytes, once execution removed it), reap = Reaper.SubmitTxs, produce = one publishBlock step, clean restart = new reaper + sequencer + manager on the same image} × every set of deviations within the phase's bounds, where a deviation is (i) a crash point among ALL durable writes of the explored actions and of the reboots (crash before the write, then reboot of all three components on the exact image; at most `crash`) or (ii) an executor error answer: any ExecuteTxs / SetFinal call the node makes during an explored action returns an error without effect on the executor (at most `exec_errors`; in this world only publishBlock's ExecuteTxs is ever called, on a block of a newly taken batch, on a new empty block or on a pending block), crashes + executor errors together at most `crashes_plus_exec_errors`; what follows an executor error is every continuation of the alphabet (retry by the next produce, clean restart, reap, injections, or the drain at once); each history is followed by a deviation-free drain of reap+produce rounds to quiescence, the four oracle clauses and world.CheckChain; executed from scratch on the real Reaper, single.Sequencer and Manager in a synctest bubble; states = deviation-free action histories; distinct = distinct (queue size, chain contents, refusals, releases, crash positions, executor-error positions and follow-up action) signatures",
 		Exhaustive: true, Caps: caps,
 		Bounds: map[string]any{"phases": phases, "queue_sizes": queueSizes, "openings": len(openings), "max_decision_points": total.MaxDepth},
 		// RunShards keeps the Extra of the first shard only: these three are per-shard figures (1/16 of the exploration)
-		Extra: map[string]any{"first_shard_histories_with_queue_full_refusal": v.refusal, "first_shard_histories_with_crash": v.crash, "first_shard_crash_free_histories": v.crashFree},
+		Extra: map[string]any{"first_shard_histories_with_queue_full_refusal": v.refusal, "first_shard_histories_with_crash": v.crash, "first_shard_crash_free_histories": v.crashFree,
+			"first_shard_histories_with_executor_error": v.execErr, "first_shard_histories_with_executor_error_and_crash": v.execAndCrash, "first_shard_deviation_free_histories": v.plain,
+			"first_shard_setfinal_calls_seen": v.finals},
 	})
 }
